@@ -156,7 +156,7 @@ pub fn run(ctx: &Ctx, rep: &mut Report) {
                 continue;
             }
         };
-        let native_addr = w.predicted_token_address(&native_id);
+        let native_addr = w.token_addr(&native_id);
         let admin = w.users[2].clone();
         let sac = make_token(&mut w.u, TokKind::Sac, &admin, &mut rng);
         let o = w.do_register_canonical(&sac.addr);
